@@ -1304,7 +1304,7 @@ INFO = {
 }
 for _v in INFO.values():
     _v['rule'] += (
-        '; swarm dimensions (see probes): int/float/Fraction/datetime/timedelta clocks, floats crossing 2**53, a non-default loop next to a decoy default loop, loads that quit, plain loop.switch() calls (terminal for the model), StopIteration terminators, the same SwitchWorld instance raised again, leaving a world whose dispatching the program switched off, probes into muted and into discarded worlds, loads that crash, exception groups with Quit / SwitchWorld leaves, falsy World subclasses, scripts on callbacks run by the clock, the time function replaced while the loop runs')
+        '; swarm dimensions (see probes): int/float/Fraction/datetime/timedelta clocks, floats crossing 2**53, a non-default loop next to a decoy default loop, loads that quit, plain loop.switch() calls (terminal for the model), StopIteration terminators, the same SwitchWorld instance raised again, leaving a world whose dispatching the program switched off, probes into muted and into discarded worlds, loads that crash, exception groups with Quit / SwitchWorld leaves, falsy World subclasses, scripts on callbacks run by the clock, the time function replaced while the loop runs, switch requests amended after construction, chains of up to 1500 switches between two iterations')
 PROBES = {
     'C13': ['flag.none', 'flag.clear_current', 'flag.clear_next',
             'flag.both', 'self_switch', 'target_uncached',
